@@ -502,6 +502,23 @@ func genC06(t *rapid.T) *C06Plan {
 	for _, n := range p.Nodes {
 		lagging = lagging || n.Lag > 0
 	}
+	// forked universe (legacy engine): one more node holds a weaker branch that leaves the honest chain above the last
+	// checkpoint; every node then answers with the full cap (one reply must suffice to overtake)
+	if p.Engine == "legacy" && rapid.IntRange(0, 3).Draw(t, "forkk") == 0 {
+		lastCP := p.Checkpoints[len(p.Checkpoints)-1]
+		if room := p.HonestLen - lastCP; room >= 2 {
+			at := lastCP + rapid.IntRange(0, room-2).Draw(t, "forkat")
+			flen := rapid.IntRange(1, p.HonestLen-at-1).Draw(t, "forklen")
+			p.Forks = append(p.Forks, ForkSpec{At: at, Len: flen, Bits: 0x1d00ffff})
+			fn := C06Node{Branch: 0}
+			fn.Spec.Pver = 70015
+			p.Nodes = append(p.Nodes, fn)
+			for i := range p.Nodes {
+				p.Nodes[i].Spec.Cap = 2000
+			}
+			lagging = true // the service may sync the fork first; the honest node announces afterwards
+		}
+	}
 	if lagging {
 		// the service learns about the rest of the chain from an announcement of the full node
 		p.Events = append(p.Events, C06Event{Node: 0, K: 1})
